@@ -1,7 +1,7 @@
 """Theta / Tuple structural rules (C01, C02, C13): strict screens, theta writers, pivot agreement, ordered-only
 shortcuts, emptiness, duplicate suppression, builder/reset agreement, seed checks."""
 import re
-from astu import strip, strip_all, walk, walkp, txt, short, is_this_field, field_name, local_decls, stmts_of, always_exits, functions_by
+from astu import C, ctxt, gt_pair, eq_const, strip, strip_all, walk, walkp, txt, short, is_this_field, field_name, local_decls, stmts_of, always_exits, functions_by
 from vlib.core import ob
 
 class _U64:
